@@ -141,8 +141,11 @@ def run_case(case):
     expN = expected_vars(n, t)
     if N != expN:
         raise Violation("{} on a formula with {} variables: {} variables, documented {} (F={})".format(t, n, N, expN, fc))
+    Nvars = N
     if N > MAXV:
-        return Outcome(nontrivial=False, labels=['too-large'])
+        if 'rseed' not in case:
+            return Outcome(nontrivial=False, labels=['too-large'])
+        N = sample_batch(case, n, N)     # a sample of assignments stands in for the 2^N rows
     FULL = tt.full(N)
     V = lambda i: tt.var_mask(N, i)     # noqa
     extra = FULL
@@ -181,9 +184,11 @@ def run_case(case):
     if got != want:
         a = tt.first_row(got ^ want)
         raise Violation("{} applied to {}: assignment {} {} the transformed formula but the induced assignment {} F".format(
-            t, fc, tt.row_assignment(N, a), 'satisfies' if (got >> a) & 1 else 'falsifies',
+            t, fc, N.row(a) if isinstance(N, tt.Batch) else tt.row_assignment(N, a), 'satisfies' if (got >> a) & 1 else 'falsifies',
             'satisfies' if (want >> a) & 1 else 'does not satisfy (or selectors are not exactly-one in)'))
     labels = [name, fc['kind']]
+    if isinstance(N, tt.Batch):
+        labels.append('arity>=9' if t.get('k', 0) >= 9 or name.endswith('comp') else 'sampled')
     if any(len(c) == 0 for c in before):
         labels.append('empty-clause')
     used = set(abs(l) for c in before for l in c)
@@ -199,6 +204,67 @@ def run_case(case):
         labels.append('variable-without-neighbours')
     nonconst = (name in BLOCK and t['k'] >= 2) or (name in LINEAR and 0 < t['K'] < t['k']) or name in ('ite', 'lift', 'flip', 'xorcomp', 'majcomp')
     return Outcome(labels=labels, nontrivial=any(before) and nonconst)
+
+
+def sample_batch(case, n, N):
+    """300 assignments over N variables; inside every block of a substitution the number of true
+    variables is pushed towards the places where the gadget changes value"""
+    import random as _r
+    R = _r.Random(case['rseed'])
+    t = case['T']
+    k = t.get('k')
+    rows = []
+    for _ in range(300):
+        if k and t['name'] != 'lift':
+            row = set()
+            for v in range(n):
+                K = t.get('K', (k + 1) // 2)
+                c = R.choice([0, 1, k - 1, k, K - 1, K, K + 1, R.randint(0, k), R.randint(0, k)])
+                c = max(0, min(k, c))
+                row.update(v * k + j + 1 for j in R.sample(range(k), c))
+            rows.append(row)
+        else:
+            p = R.choice([0.1, 0.5, 0.5, 0.9])
+            rows.append({v for v in range(1, N + 1) if R.random() < p})
+    return tt.Batch(N, rows)
+
+
+def enum_wide(tier):
+    """gadgets too wide for a complete truth table, on tiny formulas"""
+    # unit clauses only: a clause with w literals costs the product of w gadget encodings
+    forms = [{'kind': 'hand', 'n': 1, 'clauses': [[1]]}, {'kind': 'hand', 'n': 1, 'clauses': [[-1]]},
+             {'kind': 'hand', 'n': 2, 'clauses': [[1], [-2]]}, {'kind': 'hand', 'n': 3, 'clauses': [[-1], [3], [3], []]}]
+    i = 0
+    for name in ('or', 'eq', 'neq'):
+        i += 1
+        yield {'F': {'kind': 'hand', 'n': 3, 'clauses': [[1, -2], [2, 3], [-1, -3]]}, 'T': {'name': name, 'k': 9}, 'rseed': i}
+    for fi, F in enumerate(forms):
+        n = F['n']
+        for k in ((9, 10, 13) if tier == 'quick' else (9, 10, 11, 12, 13, 14)):
+            if n * (2 ** k) > 20000:
+                continue
+            i += 1
+            yield {'F': F, 'T': {'name': 'xor', 'k': k}, 'rseed': i}
+        for name in ('or', 'eq', 'neq', 'one'):
+            for k in (9, 17, 33):
+                i += 1
+                yield {'F': F, 'T': {'name': name, 'k': k}, 'rseed': i}
+        for k in (7, 9, 10):
+            i += 1
+            yield {'F': F, 'T': {'name': 'maj', 'k': k}, 'rseed': i}
+        for name in LINEAR:
+            for k, K in ((9, 1), (9, 8), (10, 2), (12, 11), (9, 4), (16, 1), (16, 15), (16, 16)):
+                if 2 < K < k - 2 and n > 1:
+                    continue
+                i += 1
+                yield {'F': F, 'T': {'name': name, 'k': k, 'K': K}, 'rseed': i}
+        if n <= 2:
+            for name in ('xorcomp', 'majcomp'):
+                for d in (9, 10, 11):
+                    R = d + 3 + 19
+                    edges = [[u, ((u * 5 + j * 2) % R) + 1] for u in range(1, n + 1) for j in range(d)]
+                    i += 1
+                    yield {'F': F, 'T': {'name': name, 'B': {'L': n, 'R': R, 'edges': edges, 'as': ('cnfgen', 'networkx')[i % 2]}}, 'rseed': i}
 
 
 @st.composite
@@ -300,4 +366,7 @@ SUBCHECKS = [
              required_labels=BLOCK + LINEAR + ['ite', 'lift', 'flip', 'xorcomp', 'majcomp', 'empty-clause',
                                               'unused-variable', 'opposite-literals', 'threshold-at-boundary',
                                               'variable-without-neighbours', 'php', 'op']),
+    SubCheck('wide', run_case, enumerate_cases=enum_wide,
+             rule="gadgets of arity 9..14 (xor), 9..33 (or, all-equal, not-all-equal, exactly-one), 7..10 (majority), 9..16 (threshold substitutions, constants near both ends) and xor/maj compression with left degree 9..11, on formulas with 1..3 variables; oracle: as in 'compose', evaluated on 300 sampled assignments whose per-block counts sit around the gadget's switching points (bit-parallel on the sample); non-trivial: as in 'compose'",
+             required_labels=['arity>=9', 'xor', 'xorcomp', 'maj']),
 ]
